@@ -967,6 +967,9 @@ class Engine:
                 if src.startswith(pat):
                     self.hint_hits.add(pat)
                     for item in self.spec_eval(lambda: fn(LoopState(self, env))):
+                        if item[0] == "then":
+                            item[1]()      # abstraction step: replace a value by one just proved equal to it
+                            continue
                         self.oblige("hint.%s" % item[0], item[1], cls=(item[2] if len(item) > 2 else "S"))
         return r
 
